@@ -493,6 +493,9 @@ pub fn same_shape_decoy(src: &str) -> String {
 
 /// Parses and lints a decoy text in `buf` (results ignored, panics caught);
 /// a generated decoy program is also executed.
+/// Says and computes ordinary values of every kind (see the decoy selection).
+const WARM_UP: &str = "Say 0\nSay 1\nSay 0 minus 1\nSay 0.5\nSay 2 over 3\nSay 1000000\nSay \"0\" plus 0\nSay 1 plus \" level\"\nSay true\nSay false\nSay nothing\nSay mysterious\nSay \"\"\nSay \"text\"\nPut 0 into Zero\nBuild Zero up\nKnock Zero down\nSay Zero\nLet Shelf at 0 be \"zero\"\nLet Shelf at \"key\" be \"value\"\nLet Shelf at \"other\" be \"thing\"\nSay Shelf at 0\nJoin Shelf into Glue\nSay Glue\nCut \"a,b\" into Pieces with \",\"\nSay Pieces at 1\nCast \"12\" into Twelve\nSay Twelve\nTurn up Twelve\nEcho takes Sound\nGive back Sound plus Sound\n\nSay Echo taking 0\nSay Echo taking \"x\"\n";
+
 fn run_decoy(buf: &mut String, decoy: &str, execute: bool) {
     buf.clear();
     buf.push_str(decoy);
@@ -550,8 +553,19 @@ pub struct Config {
 }
 
 impl Config {
+    /// How far down the native stack the observation runs (derived from the
+    /// hasher seed; the first configuration, seed 0, runs at the top).
+    pub fn stack_pad_kib(&self) -> u32 {
+        if self.hash_seed == 0 {
+            0
+        } else {
+            [0u32, 96, 700, 0, 1800, 300, 0, 1100][(self.hash_seed % 8) as usize]
+        }
+    }
+
     pub fn to_json(&self) -> J {
         J::obj(vec![
+            ("native_stack_depth_kib", J::U(self.stack_pad_kib() as u64)),
             ("hasher_seed", J::U(self.hash_seed)),
             ("fresh_thread", J::Bool(self.fresh_thread)),
             ("heap_perturbation_seed", J::U(self.heap_junk)),
@@ -740,18 +754,34 @@ pub fn observe_in(
             wb.calls as u64,
         )
     };
+    // the whole observation runs this much further down the native stack
+    // (stack addresses are addresses too)
+    let pad = cfg.stack_pad_kib();
     if cfg.fresh_thread {
         std::thread::scope(|s| {
             std::thread::Builder::new()
                 .stack_size(32 << 20)
-                .spawn_scoped(s, inner)
+                .spawn_scoped(s, move || with_stack_pad(pad, &mut inner))
                 .expect("spawn")
                 .join()
                 .expect("observer thread")
         })
     } else {
-        inner()
+        with_stack_pad(pad, &mut inner)
     }
+}
+
+/// Calls `f` from a frame `kib` KiB further down the stack.
+#[inline(never)]
+fn with_stack_pad<R>(kib: u32, f: &mut dyn FnMut() -> R) -> R {
+    if kib == 0 {
+        return f();
+    }
+    let mut frame = [0u8; 4096];
+    std::hint::black_box(&mut frame);
+    let r = with_stack_pad(kib.saturating_sub(4), f);
+    std::hint::black_box(&frame);
+    r
 }
 
 fn benign(t: &mut Tape) -> Schedule {
@@ -924,9 +954,27 @@ impl Property for C10 {
         let same_shape = same_shape_decoy(&source);
         let other_program = gen_dict_program(tape).source;
         let mut buf = String::with_capacity(source.len().max(other_program.len()) + 8);
+        // a second buffer, alive at the same time (so at another address), in
+        // which nothing but the program itself is ever processed: the clean
+        // reference for state keyed by where text lies
+        let mut clean_buf = String::with_capacity(source.len().max(other_program.len()) + 8);
+        // and a third one in which the decoy is the very first thing ever
+        // processed, before the program (state of the kind "the first answer
+        // for this place wins"); used by configuration #1 only
+        let mut trap_buf = String::with_capacity(source.len().max(other_program.len()) + 8);
         for (ci, cfg) in configs.iter().enumerate() {
+            let use_clean = ci % 4 == 0 && ci > 0;
+            let use_trap = ci == 1;
             let decoy: Option<(&str, bool)> = match ci % 4 {
                 0 => None,
+                // (a configuration on a fresh thread: the thread's first
+                // program is a warm-up that says and computes ordinary values
+                // of every kind, so that whatever the code under test keeps
+                // per thread has been filled by somebody else's values)
+                3 if ci % 8 == 7 => {
+                    stats.inc("fault.configured.decoy_warm_up_program_run_first_on_fresh_thread");
+                    Some((WARM_UP, true))
+                }
                 1 | 3 => {
                     stats.inc("fault.configured.decoy_same_layout_parsed_first");
                     Some((&same_shape, false))
@@ -936,7 +984,19 @@ impl Property for C10 {
                     Some((&other_program, true))
                 }
             };
-            let (obs, probe, steps) = observe_in(&mut buf, &source, decoy, &input, cfg);
+            let (obs, probe, steps) = observe_in(
+                if use_clean {
+                    &mut clean_buf
+                } else if use_trap {
+                    &mut trap_buf
+                } else {
+                    &mut buf
+                },
+                &source,
+                decoy,
+                &input,
+                cfg,
+            );
             res.executions += 1;
             res.steps += steps;
             res.digest = hash_combine(res.digest, obs.hash());
@@ -946,6 +1006,9 @@ impl Property for C10 {
             }
             if cfg.heap_junk != 0 {
                 stats.inc("fault.configured.heap_perturbation");
+            }
+            if cfg.stack_pad_kib() != 0 {
+                stats.inc("fault.configured.native_stack_depth");
             }
             for (n, p) in probe.iter().enumerate() {
                 per_site_orders.insert((n, p.clone()));
@@ -1240,7 +1303,17 @@ fn process_arm(
         for i in 0..6 {
             let spec = ProcSpec {
                 args: vec![sub.into(), file.clone().into_os_string()],
-                env: vec![("RRSS_VERIF_HASH_SEED".to_string(), (i * 7919).to_string())],
+                env: {
+                    let mut env = vec![("RRSS_VERIF_HASH_SEED".to_string(), (i * 7919).to_string())];
+                    if i == 1 || i == 2 {
+                        // (first the processes whose clocks the simulator
+                        // owns: a dependence on time shows there every time)
+                        env.extend(procworld::clock_env_for(
+                            hash_bytes(source.as_bytes()).wrapping_add(i as u64 * 0x1_0000_0001),
+                        ));
+                    }
+                    env
+                },
                 cwd: scratch.path.clone(),
                 stdin: Vec::new(),
                 stdin_kind: StdinKind::DevNull,
